@@ -103,19 +103,23 @@ func (v *valContext) Configs() controllercontext.Configs { return v.cfgs }
 // ---------------------------------------------------------------- world
 
 type valWorld struct {
-	c      *Ctx
-	rng    *rand.Rand
-	ctx    *valContext
-	cron   *configv1alpha1.CronExecutionConfig
-	now    time.Time
-	clk    *fakeclock.FakeClock
-	jcHook *jobconfigvalidatingwebhook.Webhook
-	jHook  *jobvalidatingwebhook.Webhook
-	nextID int
-	podIDs map[string]int
-	sentTZ map[string]bool
-	sentP  map[string]bool
-	sentH  map[string]bool
+	c    *Ctx
+	rng  *rand.Rand
+	ctx  *valContext
+	cron *configv1alpha1.CronExecutionConfig
+	now  time.Time
+	clk  *fakeclock.FakeClock
+	// liveSched is a Schedule that was created while a DIFFERENT cron configuration was in force
+	// (the controller keeps one Schedule for its lifetime while the dynamic configuration changes):
+	// what the webhook accepts under the current configuration must be loadable into it too.
+	liveSched *cronschedule.Schedule
+	jcHook    *jobconfigvalidatingwebhook.Webhook
+	jHook     *jobvalidatingwebhook.Webhook
+	nextID    int
+	podIDs    map[string]int
+	sentTZ    map[string]bool
+	sentP     map[string]bool
+	sentH     map[string]bool
 
 	defaultTzOK bool // ground truth by construction (E-DefaultTz)
 	accepted    []*acceptedJC
@@ -192,6 +196,22 @@ func newValWorld(c *Ctx, rng *rand.Rand, cronCfg *configv1alpha1.CronExecutionCo
 	w.clk = fakeclock.NewFakeClock(now)
 	validation.Clock = w.clk
 	mutation.Clock = w.clk
+	{
+		// the opposite parser settings were in force when the long-lived Schedule was created
+		nb := func(b *bool) *bool { v := b == nil || !*b; return &v }
+		old := *cronCfg
+		old.CronHashNames, old.CronHashSecondsByDefault, old.CronHashFields = nb(cronCfg.CronHashNames), nb(cronCfg.CronHashSecondsByDefault), nb(cronCfg.CronHashFields)
+		if strings.EqualFold(string(cronCfg.CronFormat), "quartz") {
+			old.CronFormat = "standard"
+		} else {
+			old.CronFormat = "quartz"
+		}
+		utc := "UTC"
+		old.DefaultTimezone = &utc
+		w.ctx.cfgs.cron = &old
+		w.liveSched, _ = w.newSchedule(nil)
+		w.ctx.cfgs.cron = cronCfg
+	}
 	w.jcHook, _ = jobconfigvalidatingwebhook.NewWebhook(w.ctx)
 	w.jHook, _ = jobvalidatingwebhook.NewWebhook(w.ctx)
 
@@ -753,6 +773,25 @@ func (w *valWorld) monitorLoadable(as []*acceptedJC) {
 	w.c.Emit("val.bump "+a.id, bump)
 	if bump != "ok" && a.inEnv {
 		w.c.Violate("C17", "accepted-loadable", "Schedule.Bump returned %s on accepted JobConfig %s", bump, a.id)
+	}
+	// the same through the Schedule that has existed since before the configuration changed
+	if w.liveSched == nil {
+		return
+	}
+	bump, timedOut = withWatchdog(loadWatchdog, func() string {
+		if _, err := w.liveSched.Bump(a.jc, w.now); err != nil {
+			return "error"
+		}
+		return "ok"
+	})
+	if timedOut {
+		w.c.Violate("C17", "accepted-loadable", "Schedule.Bump (long-lived Schedule) did not return within %v on accepted JobConfig %s (cron lines %q)", loadWatchdog, a.id, cronLines(a.jc))
+		return
+	}
+	w.c.Emit("val.bump "+a.id, bump)
+	w.c.Count("load.bump-live." + bump)
+	if bump != "ok" && a.inEnv {
+		w.c.Violate("C17", "accepted-loadable", "Schedule.Bump returned %s on accepted JobConfig %s for a Schedule created before the cron configuration changed (the webhook validated it under the current configuration)", bump, a.id)
 	}
 }
 
